@@ -16,7 +16,7 @@ from .. import audit, storeh
 from .. import bfs as vbfs
 from ..storemc import StoreRun, KEYS, MB
 
-POPULATE = (("memo", 0, "s", None), ("memo", 1, "X", None), ("memo", 2, "t", "k1"),
+POPULATE = (("memo", 0, "s", None), ("memo", 1, "X", None), ("memo", 2, "t", "ov/k#1"),
             ("wmeta", 0, "log", False), ("wmeta", 2, "aux", True))
 
 # "+damaged": the data object of one memoized call (key 0) was lost before the store is opened read-only
@@ -223,7 +223,7 @@ def alphabet():
     ops = []
     for ki in range(len(KEYS)):
         ops += [("getm", ki), ("read", ki), ("ism", ki), ("fc", ki)]
-    ops += [("memo", 0, "s", None), ("memo", 3, "s", None), ("memo", 0, "s", "k1"), ("memo", 3, "N", "k1")]
+    ops += [("memo", 0, "s", None), ("memo", 3, "s", None), ("memo", 0, "s", "ov/k#1"), ("memo", 3, "N", "ov/k#1")]
     ops += [("wmeta", 0, "log", False), ("wmeta", 0, "log", True), ("wmeta", 2, "aux", True), ("rmeta", 0, "log"), ("rmeta", 2, "aux")]
     ops += [("ff", "fn#1"), ("ff", "fn1#1"), ("fe",), ("lsf",), ("lsm", "fn#1"), ("lsm", "fn#10"), ("isall", (0, 1))]
     ops += [("call", "fn", 1, None), ("call", "fn", 2, None), ("call", "fn", 3, None), ("call", "fn1", 1, None),
